@@ -104,13 +104,14 @@ fn base_book(c: &ProtCase) -> (Spreadsheet, usize) {
     if c.legacy_before {
         match c.kind {
             0 => {
-                book.get_sheet_mut(&si).unwrap().get_sheet_protection_mut().set_password_raw("CC1A");
+                // as loaded from another producer's file: a legacy hash and a foreign spin count
+                book.get_sheet_mut(&si).unwrap().get_sheet_protection_mut().set_password_raw("CC1A").set_spin_count(1000);
             }
             1 => {
-                book.get_workbook_protection_mut().set_workbook_password_raw("83AF");
+                book.get_workbook_protection_mut().set_workbook_password_raw("83AF").set_workbook_spin_count(1000);
             }
             _ => {
-                book.get_workbook_protection_mut().set_revisions_password_raw("DAA7");
+                book.get_workbook_protection_mut().set_revisions_password_raw("DAA7").set_revisions_spin_count(1000);
             }
         }
     }
